@@ -1317,6 +1317,47 @@ def corpus_u16_cleared(S, rng):
     S.f_continue(1, a, 300, bound(300), 1, expect_ok=True)
     S.res["stats"]["corpus_u16_cleared"] += 1
 
+def scen_renorm_big(S, rng):
+    """LZ4_renormDictT with a dictionary segment LARGER than 64 KB (the clamp of dictSize and the rebase of the
+    dictionary pointer interact only then): contiguous blocks summing to > 64 KB, or one block > 64 KB, the index moved next to
+    2^31 (state injection, shift lemma), then the block that triggers the renormalisation - contiguous (prefix mode) or
+    elsewhere (external dictionary mode) - and two more.  Every call is compared with the model (context fields
+    included: dictionary pointer, dictSize, currentOffset) and every block is judged by the property oracles."""
+    rec = 16
+    def records(n, seed):
+        r2 = random.Random(seed)
+        keys = [r2.randbytes(8) for _ in range(6)]
+        out = bytearray()
+        while len(out) < n:
+            out += r2.choice(keys) + r2.randbytes(8)
+        return bytes(out[:n])
+    S.f_new(0)
+    shape = rng.choice(["contig3", "one_big", "contig_then_far"])
+    sizes = {"contig3": [30000, 30000, 30000], "one_big": [65536 + rec * rng.choice([1, 2, 7])], "contig_then_far": [40000, 40016]}[shape]
+    area = S.arena.alloc(sum(sizes) + 3 * 70000 + 64)
+    pos = 0
+    for i, n in enumerate(sizes):
+        S.write(area + pos, records(n, rng.randrange(1 << 30)))
+        S.f_continue(0, area + pos, n, bound(n), 1, expect_ok=True)
+        pos += n
+    cur = S.fstate(0)["cur"]
+    margin = rng.choice([0, 1, 100, 3000])
+    S.f_shift(0, 0x80000000 - margin - cur)
+    for k in range(3):
+        n = rng.choice([4000, 20000, 66000])
+        far = (shape == "contig_then_far" and k == 0) or (k > 0 and rng.random() < 0.5)
+        if far:
+            pos += 64
+        data = bytearray(records(n, rng.randrange(1 << 30)))
+        # share records with what lies 64 KB .. dictSize behind (the region a wrong rebase would compare against)
+        prev = S.arena.read(area, pos)
+        for j in range(0, min(len(prev), n) - rec, rec * 3):
+            data[j:j + rec] = prev[-(j % 70000) - rec: len(prev) - (j % 70000)] or data[j:j + rec]
+        S.write(area + pos, bytes(data[:n]))
+        S.f_continue(0, area + pos, n, bound(n), 1, expect_ok=True)
+        pos += n
+    S.res["stats"]["renorm_big_" + shape] += 1
+
 def scen_real2g(S, rng, fam, total=2200 << 20, blk=1 << 20):
     """thorough only: a REAL stream of > 2^31 cumulative bytes (double-buffer geometry, 1 MB blocks) on the real
     library alone; every block is decoded by the real decoder with the last 64 KB of the previous block.  The
